@@ -12,11 +12,11 @@ WORLDS = {
  "C07": ("SRC, configuration product + large-file prefix runs", "every size 0..3L+1 x L in 1..5; derived segment lengths (configured <,=,> derived); widths; checksum types; 36 prefix runs of a 2^32+5 byte file; one failing filestore read at any point; Finished PDUs with another CRC flag / id width; request x MIB mode/closure product (72 worlds)"),
  "C08": ("SRC (ack), NAK alphabet", "all pairs over offsets {0, seg, size-1, size, size+1, 2^32-1} + 2-request NAKs, <=2 NAKs per run [<=2], 5 put requests incl. one carrying every option list; configured segment length larger than derived; two transactions on one handler"),
  "C09": ("CKSUM", "all 256 one-byte files; 5-letter alphabet to length 4 [6]; {00,FF} to length 9 [11]; every prefix x chunk x type; CKSBIG: 2 patterns x 6 [11] boundary lengths up to 70001 [131073] x boundary prefixes x boundary chunks x type"),
- "C10": ("SRC + DST wide alphabet, partial draining, late-state prefixes", "depth 5 [7] from idle, depth 8 [10] from 7 late states, 15-38 events; Metadata PDUs with unusual destination names / one name missing; destination shape `dir_dir`; invariants num_packets_ready == queue length, no queued PDU vanishes"),
+ "C10": ("SRC + DST wide alphabet, partial draining, late-state prefixes", "depth 5 [7] from idle, depth 8 [10] from 9 late states, modular checksum over 5 x 0xFF (word sum past 2^32) in 4 worlds, 15-38 events; Metadata PDUs with unusual destination names / one name missing; destination shape `dir_dir`; invariants num_packets_ready == queue length, no queued PDU vanishes"),
  "C11": ("HIST-DST, HIST-SRC, SIBLING", "history depth 5 / 7 [6 / 9], 7 + 9 follow-up scripts (gap, late metadata, cancel, silence, request overrides, re-sends), 8+8 step sibling scripts; histories ending by abandonment (overridden handler codes); follow-ups after the source file was rewritten"),
  "C12": ("SRC + DST with cancel requests", "sizes 0, L-1, 2L+1, both modes, closure, disposition, CRC-32/modular, metadata-only, <=2 cancel requests and <=2 NAKs per run, EOF(cancel) before and during the check-limit wait; EOF(cancel) before the Metadata and while missing data is re-requested; second transaction at the sender; cancel request followed at once by a put request"),
  "C13": ("DST (unack) + SRC, reference automaton with its own clock", "<=3 segments, check limits 1..3, closure, CRC-32/32C [62 configurations]; metadata-only request with closure at the sender"),
- "C14": ("SRC + DST per scenario x handler code, two fault-handler tables", "14 scenarios x {ignore, cancel, abandon}, 7-16 calls per run, second transactions; set_handler enumerated with a sibling table; plus never-acknowledged Finished(cancel), destination `nodir` / `dir_dir`, disposition with nothing to delete"),
+ "C14": ("SRC + DST per scenario x handler code, two fault-handler tables", "14 scenarios x {ignore, cancel, abandon}, 7-16 calls per run, second transactions; callback progress vs the handler's progress before the call; set_handler enumerated with a sibling table; plus never-acknowledged Finished(cancel), destination `nodir` / `dir_dir`, disposition with nothing to delete"),
  "C15": ("E2E (ff, K=1, cancel, two transactions)", "16 switch settings x 3 mode/closure; 6 message lists; K=1; cancel requests; second transaction with request-level overrides; cancel request + one fault; positive ACK limit 1; receiver world with PDUs of another transaction (depth 5 [7])"),
  "C16": ("E2E pair native / in-memory", "C02-style subset incl. 4 destination shapes, K=1, cancel requests with disposition and modular checksum [K=2, drop+cancel]; uncreatable destinations, refused writes, handler codes abandon / ignore"),
  "C17": ("FS", "fixed point over paths a,b,d,d/a [+ d/b], 5 write / 5 read variants"),
